@@ -17,6 +17,14 @@ Decided:
          with a wrapping of its current value, and is never deleted / replaced through any spelling (``del``,
          ``setattr`` / ``delattr``, ``__dict__`` / ``vars()`` item stores, ``pop``, ``update``, ``clear`` ...) anywhere
          in the analysed tree (c13_entry.py): a later ``set_error_handler`` / ``add`` cannot un-wrap the application;
+  R13.f  exception containment before dispatch: every attribute store on the request object (an instance of the configurable
+         ``request_type``) that ``_dispatch_wsgi`` -- or a function of the tree it hands the request to before dispatch --
+         performs is contained by an ``except Exception`` (or broader) handler that swallows it, with no narrower handler
+         before it letting a subclass out, or can only run after such a contained store has succeeded: an exception there
+         would leave the WSGI callable before ``start_response`` is called;
+  R13.g  string header pairs: what clastic hands to a werkzeug response constructor as ``headers`` is the caller's object as
+         given / ``None`` / a mapping / a ``Headers`` object / a list of ``(str, str)`` pairs it wrote itself -- never a ``list``
+         assembled from values of unknown type, which ``Headers.__init__`` takes verbatim (fact read from the pinned werkzeug);
   R13.c  files are handed to the response: in build_file_response the object returned by open() is
          passed to file_wrapper(...) and stored as resp.response on the success path;
          StaticFileRoute.__init__'s probe open(...) is closed in the same statement.
@@ -460,6 +468,357 @@ def check_delegation(rep, app):
     rep.check('R13.a', 'clastic::environ writers', not writes, 'no clastic function stores into a WSGI environ (0 found; control matched)' if not writes else
               'environ is written at %s' % [fi.key for _, fi, _ in writes], app)
     rep.floor('R13.a', 8)
+
+
+# ---- R13.f -----------------------------------------------------------------------------------------------------------
+def _swallows(fi, handler):
+    """The handler ends the exception: nothing in its body can raise (``pass``, ``return <name>``, plain bindings of
+    names / constants)."""
+    from ..cfg import stmt_may_raise
+    for s in ast.walk(handler):
+        if isinstance(s, ast.Raise):
+            return False
+        if isinstance(s, ast.stmt) and s is not handler and not isinstance(s, (ast.If, ast.Try)) and stmt_may_raise(s):
+            return False
+        if isinstance(s, ast.If) and stmt_may_raise(s):
+            return False
+    return True
+
+
+def contained(fi, node, exc='Exception'):
+    """An exception of class ``exc`` (and so of any of its subclasses) raised by ``node`` does not leave function fi: an
+    enclosing ``try`` body has a handler that catches it and swallows it, and no handler listed before that one (which would
+    get a subclass first) lets it out again."""
+    from ..cfg import enclosing_tries
+    from ..astutil import handler_catches
+    cur = node
+    while cur is not None and cur is not fi.node:
+        if isinstance(cur, (ast.Lambda, ast.GeneratorExp)):
+            return False
+        cur = fi.mod.parents.get(cur)
+    for tr, part in enclosing_tries(fi.mod, node, fi.node):
+        if part != 'body':
+            continue
+        for i, h in enumerate(tr.handlers):
+            if handler_catches(h, exc):
+                if all(_swallows(fi, x) for x in tr.handlers[:i + 1]):
+                    return True
+                break
+    return False
+
+
+def _attr_stores(fi, names):
+    """[(node, statement)] -- stores into an attribute of an object one of ``names`` holds: ``r.a = v`` (also as an element
+    of an unpacking, augmented, annotated, as a loop / with target), ``setattr(r, ..)`` / ``r.__setattr__(..)`` /
+    ``object.__setattr__(r, ..)``."""
+    out = []
+    for n in walk_body(fi.node):
+        hit = False
+        if isinstance(n, ast.Attribute) and isinstance(n.ctx, ast.Store) and isinstance(n.value, ast.Name) and n.value.id in names:
+            hit = True
+        elif isinstance(n, ast.Call):
+            f = n.func
+            if isinstance(f, ast.Name) and f.id == 'setattr' and n.args and isinstance(n.args[0], ast.Name) and n.args[0].id in names:
+                hit = True
+            elif isinstance(f, ast.Attribute) and f.attr == '__setattr__' and \
+                    ((isinstance(f.value, ast.Name) and f.value.id in names) or (n.args and isinstance(n.args[0], ast.Name) and n.args[0].id in names)):
+                hit = True
+        if hit:
+            out.append((n, stmt_of(fi.mod, n)))
+    return out
+
+
+def check_request_stamping(rep, app):
+    """R13.f -- the request object is an instance of ``self.request_type``, which the application's author chooses; what the
+    entry point writes onto it before it hands over to ``dispatch`` (an id, a guid) is a courtesy that a request type may
+    refuse with whatever exception its ``__setattr__`` / descriptors raise.  An exception leaving the WSGI callable at that
+    point means no ``start_response`` call and no iterable for *every* request.  So, in the part of ``_dispatch_wsgi`` that
+    runs before dispatch (and in the functions of the tree it hands the request to there): every attribute store on the
+    request object is contained by a handler for ``Exception`` that swallows it, or can only run after such a contained
+    store on the same object has succeeded (the ``else`` of that ``try``; after it when the handler leaves the function)."""
+    dw = app.func('Application._dispatch_wsgi')
+    if len(dw.params()) < 3:
+        raise AnalysisError('_dispatch_wsgi does not take (self, environ, start_response)')
+    env, sr = dw.params()[1:3]
+    # the calls whose result is the delegate (``response = self.dispatch(request)``): the dispatch phase starts there
+    dispatch_calls = set()
+    for r in returns_of(dw):
+        v = deref(dw, r.value) if r.value is not None else None
+        if isinstance(v, ast.Call) and [norm(a) for a in v.args] == [env, sr]:
+            c = v.func
+            if isinstance(c, ast.Name) and c.id not in dw.params():
+                for st_, val, idx in assigned_value(dw.node, c.id):
+                    if isinstance(val, ast.Call):
+                        dispatch_calls.add(id(val))
+            c = deref(dw, c)
+            if isinstance(c, ast.Call):
+                dispatch_calls.add(id(c))
+
+    def built_here(fi):
+        out = set()
+        for s_ in stmts_of(fi.node):
+            if isinstance(s_, ast.Assign) and isinstance(s_.value, ast.Call) and isinstance(s_.value.func, ast.Attribute) and \
+                    s_.value.func.attr == 'request_type' and norm(s_.value.func.value) == 'self':
+                out.update(t.id for t in s_.targets if isinstance(t, ast.Name))
+        return out
+    sites = []          # (function, node, statement, receiver names of that function)
+    found_ctor = [False]
+    visited = set()
+
+    def visit(fi, names, depth):
+        names = alias_closure(fi, set(names) | built_here(fi))
+        if built_here(fi):
+            found_ctor[0] = True
+        key = (fi, tuple(sorted(names)))
+        if key in visited or depth > 3:
+            return
+        visited.add(key)
+        for n, st_ in _attr_stores(fi, names):
+            sites.append((fi, n, st_, names))
+        for c in walk_body(fi.node):
+            if not isinstance(c, ast.Call) or id(c) in dispatch_calls:
+                continue
+            rc = resolve_callee(fi, c)
+            if rc is None:
+                continue
+            callee, drop = rc
+            if contained(fi, c):
+                continue            # whatever the callee does to the request: an exception out of it ends here
+            b = _bind_call(callee, c, drop)
+            passed = set()
+            if b is not None:
+                passed = set(p for p, a in b.items() if isinstance(a, ast.Name) and a.id in names)
+            elif any(isinstance(a, ast.Name) and a.id in names for a in list(c.args) + [k.value for k in c.keywords]):
+                raise AnalysisError('%s hands the request object to %s in a way that is not followed' % (fi.qualname, callee.qualname))
+            if passed or built_here(callee):
+                visit(callee, passed, depth + 1)
+    visit(dw, set(), 0)
+    if not found_ctor[0]:
+        raise AnalysisError('_dispatch_wsgi: no construction of the request object from self.request_type(...) found in it or in the '
+                            'functions it calls before dispatch')
+    by_fn = {}
+    for fi, n, st_, names in sites:
+        by_fn.setdefault(fi, []).append((n, st_))
+    n_ok = 0
+    for fi, lst in by_fn.items():
+        cfg = cfg_of(fi)
+        safe = [(n, st_) for n, st_ in lst if contained(fi, n)]
+        p_nodes = set(cfg.nodes_of_all([st_ for _, st_ in safe]))
+        exc_t = [m for (a, m) in cfg.exc_edges if a in p_nodes]
+        for n, st_ in lst:
+            ok = any(n is x for x, _ in safe)
+            how = 'contained by a handler for Exception that swallows it'
+            if not ok and p_nodes:
+                s_nodes = set(cfg.nodes_of(st_))
+                ok = bool(s_nodes) and cfg.must_pass(p_nodes, cfg.entry, s_nodes) and not (s_nodes & cfg.reach(exc_t))
+                how = 'runs only after a contained store on the request object has succeeded'
+            n_ok += 1 if ok else 0
+            rep.check('R13.f', fkey(fi, st_), ok, 'the store on the request object is %s' % how if ok else
+                      '%s stores an attribute on the request object (an instance of the configurable request_type) where an exception of '
+                      'the store -- any Exception a request type may raise to refuse it -- leaves the WSGI callable before start_response '
+                      'is called: not contained by an ``except Exception`` that swallows it, and not behind a contained store that '
+                      'succeeded' % fi.qualname, fi.mod, st_)
+    rep.ok('R13.f', fkey(dw, 'pre-dispatch stores'), '%d attribute store(s) on the request object before dispatch, all contained' % n_ok
+           if sites else 'nothing is stored on the request object before dispatch')
+
+
+# ---- R13.g -----------------------------------------------------------------------------------------------------------
+STR_CALLS = {'str', 'repr', 'format', 'chr', 'hex', 'oct', 'bin', 'unicode'}
+STR_METHODS = {'join', 'format', 'strip', 'lstrip', 'rstrip', 'lower', 'upper', 'title', 'capitalize', 'replace', 'decode', 'zfill',
+               'isoformat', 'hexdigest'}
+
+
+def str_typed(e, depth=0):
+    """The expression can only evaluate to a ``str`` (decided from its shape)."""
+    if depth > 6:
+        return False
+    if isinstance(e, ast.Constant):
+        return isinstance(e.value, str)
+    if isinstance(e, ast.JoinedStr):
+        return True
+    if isinstance(e, ast.Call):
+        f = e.func
+        if isinstance(f, ast.Name):
+            return f.id in STR_CALLS
+        return isinstance(f, ast.Attribute) and f.attr in STR_METHODS and (f.attr != 'decode' or True)
+    if isinstance(e, ast.BinOp) and isinstance(e.op, ast.Mod):
+        return str_typed(e.left, depth + 1)
+    if isinstance(e, ast.BinOp) and isinstance(e.op, ast.Add):
+        return str_typed(e.left, depth + 1) and str_typed(e.right, depth + 1)
+    if isinstance(e, ast.IfExp):
+        return str_typed(e.body, depth + 1) and str_typed(e.orelse, depth + 1)
+    return False
+
+
+def _str_pair(e):
+    return isinstance(e, ast.Tuple) and len(e.elts) == 2 and all(str_typed(x) for x in e.elts)
+
+
+def raw_pair_list(v):
+    """``v`` builds a ``list`` whose items are not known to be ``(str, str)`` pairs: a display with other items, a list
+    comprehension with another element, ``list(x)`` / ``sorted(x)`` of anything.  -> text, or None."""
+    if isinstance(v, ast.List):
+        bad = [x for x in v.elts if not _str_pair(x)]
+        return 'the list display %s' % short(v, 50) if bad else None
+    if isinstance(v, ast.ListComp):
+        return None if _str_pair(v.elt) else 'the list comprehension %s' % short(v, 60)
+    if isinstance(v, ast.Call) and isinstance(v.func, ast.Name) and v.func.id in ('list', 'sorted') and v.args:
+        a = v.args[0]
+        if isinstance(a, (ast.List, ast.ListComp, ast.GeneratorExp)) and (
+                (isinstance(a, ast.List) and all(_str_pair(x) for x in a.elts)) or (not isinstance(a, ast.List) and _str_pair(a.elt))):
+            return None
+        return 'the list %s' % short(v, 50)
+    if isinstance(v, ast.BinOp) and isinstance(v.op, ast.Add):
+        return raw_pair_list(v.left) or raw_pair_list(v.right)
+    if isinstance(v, ast.IfExp):
+        return raw_pair_list(v.body) or raw_pair_list(v.orelse)
+    if isinstance(v, ast.BoolOp):
+        for x in v.values:
+            t = raw_pair_list(x)
+            if t:
+                return t
+    return None
+
+
+def headers_list_is_verbatim(repo):
+    """The fact about the pinned werkzeug this rule rests on, read from its source: ``Headers.__init__`` extends its internal
+    list with a ``list`` argument as it is (``isinstance(defaults, (list, ..))`` -> ``self._list.extend(defaults)``), while any
+    other iterable / mapping goes through ``self.extend`` -> ``add``, which normalises every value.  -> True / False; None when
+    the source is not found."""
+    try:
+        m = repo.try_mod('werkzeug.datastructures')
+    except AnalysisError:
+        m = None
+    if m is None or 'Headers' not in m.classes or '__init__' not in m.classes['Headers'].methods:
+        return None
+    init = m.classes['Headers'].methods['__init__']
+    ps = init.params()
+    if len(ps) < 2:
+        return None
+    for n in ast.walk(init.node):
+        if isinstance(n, ast.If) and isinstance(n.test, ast.Call) and isinstance(n.test.func, ast.Name) and n.test.func.id == 'isinstance' and \
+                len(n.test.args) == 2 and norm(n.test.args[0]) == ps[1]:
+            kinds = [norm(x) for x in (n.test.args[1].elts if isinstance(n.test.args[1], ast.Tuple) else [n.test.args[1]])]
+            verbatim = any(isinstance(c, ast.Call) and isinstance(c.func, ast.Attribute) and c.func.attr == 'extend' and
+                           norm(c.func.value).startswith('self._') and [norm(a) for a in c.args] == [ps[1]] for b in n.body for c in ast.walk(b))
+            if 'list' in kinds and verbatim:
+                return True
+    return False
+
+
+def check_header_handover(rep):
+    """R13.g -- "string header pairs": the values of the headers a caller gives an error / response object may be of any type
+    (an int ``Retry-After``, a list for a multi-valued header); werkzeug's ``Headers`` turns them into ``str`` pairs when it is
+    given a mapping, another iterable, or values through ``add`` / ``set`` / ``extend`` / item assignment -- but a ``list`` it
+    takes verbatim.  So what clastic hands to a werkzeug response constructor as ``headers`` is the caller's object as
+    given, ``None``, a mapping, a ``Headers`` object or a list of ``(str, str)`` pairs it wrote itself -- never a ``list`` it
+    assembled from values of unknown type."""
+    repo = rep.repo
+    from .c12_ring import SERVER_MODS
+    fact = headers_list_is_verbatim(repo)
+    if fact is None:
+        raise AnalysisError('werkzeug.datastructures.Headers.__init__ not found: cannot tell how a list of header pairs is treated')
+    if fact is False:
+        rep.ok('R13.g', 'werkzeug::Headers(list)', 'this werkzeug normalises a list argument of Headers() like any other: nothing to require')
+        return
+
+    def response_class(ci):
+        try:
+            mro = repo.mro(ci)
+        except Exception:
+            return False
+        for b in mro:
+            key = b.key if hasattr(b, 'key') else str(b)
+            if key.startswith('werkzeug.') and key.rpartition('::')[2].rpartition('.')[2] in ('BaseResponse', 'Response'):
+                return True
+        return False
+
+    def hands_to_werkzeug(fi, c):
+        """-> positional index of ``headers`` in the callee's call (self excluded) when call ``c`` in fi runs a werkzeug response
+        constructor: ``super(..).__init__(..)`` / ``Base.__init__(self, ..)`` in a class deriving from one, or a call of such a
+        class that does not define its own ``__init__`` in the analysed tree."""
+        f = c.func
+        ci = fi.cls
+        if isinstance(f, ast.Attribute) and f.attr == '__init__':
+            if isinstance(f.value, ast.Call) and isinstance(f.value.func, ast.Name) and f.value.func.id == 'super' and ci is not None and response_class(ci):
+                # the next __init__ in the MRO: only when that one is werkzeug's
+                for b in repo.mro(ci)[1:]:
+                    if hasattr(b, 'methods') and '__init__' in b.methods:
+                        return 2 if b.mod.external and b.key.startswith('werkzeug.') else None
+                return None
+            if isinstance(f.value, ast.Name):
+                kind, m_, obj = repo.resolve(fi.mod, f.value.id)
+                if kind == 'class' and obj.mod.external and obj.key.startswith('werkzeug.') and response_class(obj):
+                    return 3
+            return None
+        if isinstance(f, ast.Name) and f.id not in fi.params() and not assigned_value(fi.node, f.id):
+            kind, m_, obj = repo.resolve(fi.mod, f.id)
+            if kind == 'class' and response_class(obj):
+                init = repo.find_method(obj, '__init__')
+                if init is not None and init.mod.external and init.mod.name.startswith('werkzeug.'):
+                    return 2
+        return None
+    n_sites = 0
+    for m in repo.all_internal_modules():
+        if m.name in SERVER_MODS:
+            continue
+        for fi in m.functions.values():
+            if isinstance(fi.node, ast.Lambda):
+                continue
+            for c in walk_body(fi.node):
+                if not isinstance(c, ast.Call):
+                    continue
+                if not (any(k.arg == 'headers' for k in c.keywords) or len(c.args) >= 3):
+                    continue
+                pos = hands_to_werkzeug(fi, c)
+                if pos is None:
+                    continue
+                h = argn(c, 'headers', pos)
+                if h is None:
+                    continue
+                n_sites += 1
+                st_ = stmt_of(fi.mod, c)
+                bad = raw_pair_list(h)
+                if bad is None and isinstance(h, ast.Name) and h.id not in fi.params():
+                    fl = effects.Flow(fi)
+                    seen, todo = set(), [(h.id, st_)]
+                    while todo and bad is None:
+                        nm, at = todo.pop()
+                        if (nm, id(at)) in seen or len(seen) > 12:
+                            continue
+                        seen.add((nm, id(at)))
+                        for d in fl.reaching(nm, at):
+                            if d.kind == 'aug':
+                                bad = 'a list extended in place (%s)' % short(d.stmt, 40) if any(
+                                    x.kind == 'assign' and x.value is not None and isinstance(fl.unpacked(x)[0], (ast.List, ast.ListComp)) for x in fl.defs.get(nm, [])) else None
+                                continue
+                            if d.kind != 'assign':
+                                continue
+                            v, vat = fl.unpacked(d)
+                            if v is None:
+                                continue
+                            bad = raw_pair_list(v)
+                            if bad:
+                                break
+                            if isinstance(v, ast.Name) and v.id not in fi.params():
+                                todo.append((v.id, d.stmt))
+                            elif isinstance(v, ast.Call):
+                                rc = resolve_callee(fi, v)
+                                if rc is not None:
+                                    # a helper of the tree that builds the value: what it returns
+                                    for r in returns_of(rc[0]):
+                                        if r.value is not None:
+                                            t = raw_pair_list(deref(rc[0], r.value))
+                                            if t:
+                                                bad = '%s, returned by %s' % (t, rc[0].qualname)
+                rep.check('R13.g', fkey(fi, 'headers handed to werkzeug'), bad is None,
+                          'the headers handed to the werkzeug response constructor are the caller\'s object as given / None / a mapping / a Headers '
+                          'object: every value goes through werkzeug\'s normalisation' if bad is None else
+                          '%s hands %s to the werkzeug response constructor as headers: Headers() takes a list verbatim (no str() of the values, no '
+                          'expansion of multi-valued entries), so a non-str value a caller supplied reaches start_response as it is' % (fi.qualname, bad),
+                          fi.mod, st_)
+    if not n_sites:
+        raise AnalysisError('no place found where clastic hands headers to a werkzeug response constructor (HTTPException.__init__ ...)')
 
 
 # ---- R13.b -----------------------------------------------------------------------------------------------------------
@@ -1193,7 +1552,9 @@ def run(rep):
     st = repo.mod(STATIC)
     rep.decide('R13.a exactly one WSGI delegate per path with untouched (environ, start_response); R13.b wrapper order; '
                'R13.c opened files handed to the response; R13.d application-level middlewares are wrapper sources '
-               'independently of the routes; R13.e the wrapped entry point is never removed or replaced after construction')
+               'independently of the routes; R13.e the wrapped entry point is never removed or replaced after construction; '
+               'R13.f stores on the request object before dispatch cannot raise out of the WSGI callable; R13.g header values reach '
+               'werkzeug through its normalising entry points')
     rep.decline('status-line / header validity, close() semantics, bytes-ness of bodies: inside werkzeug')
     rep.assume('werkzeug BaseResponse.__call__ calls start_response exactly once before yielding body bytes and omits the body for HEAD')
     rep.rule('R13.a', 'CFG: every path of _dispatch_wsgi ends in one delegate call with the original parameters')
@@ -1201,6 +1562,10 @@ def run(rep):
     rep.rule('R13.c', 'open / hand-over pairing')
 
     _group(rep, check_delegation, rep, app)
+    rep.rule('R13.f', 'exception containment before dispatch: stores on the request object (configurable request_type) cannot raise out of the WSGI callable')
+    _group(rep, check_request_stamping, rep, app)
+    rep.rule('R13.g', 'header values of unknown type reach werkzeug only through its normalising entry points (never as a list clastic assembled)')
+    _group(rep, check_header_handover, rep)
     _group(rep, check_wrap_order, rep, app)
     _group(rep, check_collect_middlewares, rep, app)
     rep.rule('R13.d', 'the wrapper sources contain the application-level middlewares whether or not a route is bound')
